@@ -318,6 +318,12 @@ def _judge(pid, ops, key, seed, model, oracle, fails, mism):
     return r
 
 
+# HTTP2-Settings values for a server's initiate_upgrade_connection: empty, well-formed, a payload that is not a multiple
+# of six bytes, setting values the library refuses (ENABLE_PUSH 2, INITIAL_WINDOW_SIZE 2**31, MAX_FRAME_SIZE 1)
+_UPGRADE_HEADERS = [None, b'', b'AAEAAAAA', b'AAQAAAAA', b'AAUAAEAB', b'AAMAAABkAAQAAP__', b'AAMAAA==', b'AA==', b'AAMAAABkAA==',
+                    b'AAIAAAAC', b'AASAAAAA', b'AAUAAAAB', b'AAIAAAAAAASAAAAA', b'AAMAAABkAAUAAAAB']
+
+
 def _zoo_programs(seed, n, kinds):
     """state zoo x call matrix: one connection fed hand-made frames is driven into unusual states (streams open, half
     closed either way, reserved either way, reset by either side, ended, forgotten; stream windows zero or negative after
@@ -340,7 +346,7 @@ def _zoo_programs(seed, n, kinds):
         if pre < 0.08:
             pass                                                   # no initiate_connection at all
         elif pre < 0.16 and not client:
-            ops.append({'op': 'initiate_upgrade', 'c': 0, 'settings_header': rng.choice([b'', b'AAEAAAAA', b'AAQAAAAA', b'AAUAAEAB'])})
+            ops.append({'op': 'initiate_upgrade', 'c': 0, 'settings_header': rng.choice(_UPGRADE_HEADERS)})
         elif pre < 0.2 and client:
             ops.append({'op': 'initiate_upgrade', 'c': 0, 'settings_header': None})
         else:
@@ -527,8 +533,11 @@ def _zoo_programs(seed, n, kinds):
             elif r == 14:
                 ops.append({'op': 'data_to_send', 'c': 0, 'amount': rng.choice([None, 0, 1, 9, -1, 10**6])})
             else:
-                ops.append({'op': rng.choice(['initiate_connection', 'clear_out'])})
+                ops.append({'op': rng.choice(['initiate_connection', 'clear_out', 'initiate_upgrade'])})
                 ops[-1]['c'] = 0
+                if ops[-1]['op'] == 'initiate_upgrade':
+                    # in whatever state the connection is by now; a server gets well-formed and malformed header values
+                    ops[-1]['settings_header'] = None if client else rng.choice(_UPGRADE_HEADERS)
             kinds[ops[-1]['op']] = kinds.get(ops[-1]['op'], 0) + 1
         yield 'zoo-%d' % k, ops
 
